@@ -71,4 +71,10 @@ example : judgeEv { conns := [1, 2], closed := [1] } [.start, .cycle 1, .tConnec
 example : clauseDisconnect { conns := [1, 2], closed := [2] } [.start, .cycle 1, .tConnect 1, .tLogon (.user 1), .cycle 2,
     .tConnect 2, .tLogon (.user 2), .tNetdead (.user 2), .cycle 3, .exitLoop] = [] := by decide
 
+-- clause hb-schedule: two beats of one object in one tick; a beat of a destructed object; one beat per tick is fine
+example : clauseHbSchedule [.start, .cycle 1, .tHb (.obj 1), .tHb (.obj 2), .tHb (.obj 1), .cycle 2] ≠ [] := by decide
+example : clauseHbSchedule [.start, .cycle 1, .tHb (.obj 1), .xDest (.obj 1) (.obj 2), .tHb (.obj 2)] ≠ [] := by decide
+example : clauseHbSchedule [.start, .tHb (.obj 1), .cycle 1, .tHb (.obj 1), .tHb (.obj 2), .cycle 2, .tHb (.obj 1)] = [] := by
+  decide
+
 end NV.C09
